@@ -9,7 +9,7 @@ namespace {
 const uint8_t SIG[] = { '"', '\\', '/', '*', ' ', '\t', '\n', 'a', '1', '{', ':', ',', '\r' };
 const char* GAPS[] = { "", " ", "\t\r\n", "//c\n", "/*c*/", "/* \" */", "// \"\n", " /**/ ", "/***/", "/* * / */", "//\n", "/*\n*/ " };
 const int NGAPS = sizeof GAPS / sizeof *GAPS;
-const char* STRS[] = { "\"a\"", "\"a b\"", "\"\\\"\"", "\"\\\\\"", "\"a\\\\\"", "\"\\\\\\\"\"", "\"/*x*/\"", "\"//\"", "\" \"", "\"\\\\\\\\\"", "\"\\\"//\\\"\"", "\"\\u0041 \\n\"", "\"*/\"" };
+const char* STRS[] = { "\"a\"", "\"a b\"", "\"\\\"\"", "\"\\\\\"", "\"a\\\\\"", "\"\\\\\\\"\"", "\"/*x*/\"", "\"//\"", "\" \"", "\"\\\\\\\\\"", "\"\\\"//\\\"\"", "\"\\u0041 \\n\"", "\"*/\"", "\"\xc3\xa9 x /*y*/\"", "\"\\\\\\\" x/\"", "\"a\x7f b\"" };
 const int NSTRS = sizeof STRS / sizeof *STRS;
 
 // token list of a reference tree; string leaves/keys are placeholders replaced by literals from STRS
